@@ -1,3 +1,4 @@
+import OtelVerif.Gen.ShutdownShape
 /-!
 # C20 — model of the collector run loop (`otelcol/collector.go`)
 
@@ -110,6 +111,8 @@ structure S where
   ret : Option Bool := none
   /-- nil `col.service` dereferenced -/
   panic : Bool := false
+  /-- a `Shutdown()` call panicked in its caller's goroutine (unrecovered `close` of the closed channel) -/
+  callerPanic : Bool := false
   log : List TEv := []
   deriving Repr
 
@@ -117,7 +120,7 @@ def init : S := {}
 
 inductive Label
   | call                  -- a goroutine enters Shutdown(): reads state, decides
-  | close                 -- such a goroutine executes `close(col.shutdownChan)` (double close is recovered)
+  | close                 -- such a goroutine executes `close(col.shutdownChan)` (see `closeStep`)
   | post (e : Ev)
   | cancel
   | begin                 -- Run is called
@@ -183,11 +186,19 @@ def postEv (s : S) : Ev → Option S
   | .async => some { s with nAsync := s.nAsync + 1 }
   | .shutdown | .ctx => none
 
+/-- `close(col.shutdownChan)` executed by a goroutine that passed the guard of `Shutdown()`. The guard read and the close
+are NOT atomic (exactly as in the code), so several callers can be past the guard at once (`closers ≥ 2`) and the second
+one closes a closed channel. In Go that panics in the caller's goroutine; what makes it safe is a mechanism around the
+`close` — a deferred `recover()` or `sync.Once` — whose presence is the regenerated shape fact
+`Gen.ShutdownShape.closeRecovered` (`recovered`). Without it the caller panics (`callerPanic`). -/
+def closeStep (recovered : Bool) (s : S) : S :=
+  { s with closers := s.closers - 1, chanClosed := true, callerPanic := s.callerPanic || (s.chanClosed && !recovered) }
+
 def fire (v : Variant) (s : S) : Label → Option S
   | .call =>
     let s := S.emit { s with req := s.req || s.everRunning } .call
     some (if v.honours s.st then { s with closers := s.closers + 1 } else s)
-  | .close => if s.closers > 0 then some { s with closers := s.closers - 1, chanClosed := true } else none
+  | .close => if s.closers > 0 then some (closeStep Gen.ShutdownShape.closeRecovered s) else none
   | .post e => postEv s e
   | .cancel => some { s with ctxDone := true }
   | .begin => if s.pc = .idle then some { s with pc := .setup1 false } else none
